@@ -767,6 +767,19 @@ class Interp:
             return a is b
         if isinstance(op, ast.IsNot):
             return a is not b
+        if isinstance(op, (ast.In, ast.NotIn)) and isinstance(b, (list, tuple)) and \
+                (isinstance(a, Record) or any(isinstance(x, Record) for x in b)):
+            # membership uses == on the elements: abstract objects go through their class's __eq__
+            found = any(x is a or self.truth(self.cmp(ast.Eq(), x, a)) for x in b)
+            return found if isinstance(op, ast.In) else not found
+        def _tagged(t_):
+            return isinstance(t_, tuple) and len(t_) > 0 and isinstance(t_[0], str) and t_[0] in (
+                "bound", "host", "builtin", "strmethod", "dictmethod", "listmethod", "exc", "re", "patsub")
+        if isinstance(op, (ast.Eq, ast.NotEq)) and isinstance(a, (list, tuple)) and isinstance(b, (list, tuple)) \
+                and type(a) is type(b) and not _tagged(a) and not _tagged(b) \
+                and any(isinstance(x, Record) for x in list(a) + list(b)):
+            same = len(a) == len(b) and all(x is y or self.truth(self.cmp(ast.Eq(), x, y)) for x, y in zip(a, b))
+            return same if isinstance(op, ast.Eq) else not same
         if isinstance(a, Record) or isinstance(b, Record):
             return self.cmp_record(op, a, b)
         try:
@@ -782,11 +795,6 @@ class Interp:
                 return a > b
             if isinstance(op, ast.GtE):
                 return a >= b
-            if isinstance(op, (ast.In, ast.NotIn)) and isinstance(b, (list, tuple)) and \
-                    (isinstance(a, Record) or any(isinstance(x, Record) for x in b)):
-                # membership uses == on the elements: abstract objects go through their class's __eq__
-                found = any(x is a or self.truth(self.cmp(ast.Eq(), x, a)) for x in b)
-                return found if isinstance(op, ast.In) else not found
             if isinstance(op, ast.In):
                 return a in b
             if isinstance(op, ast.NotIn):
